@@ -221,7 +221,7 @@ def families(tier):
                     continue
                 sid = f'{"".join(t[1] + str(v) for t, v in stream)}-c{"_".join(map(str, calls))}-s{"".join(map(str, start))}-x{cancel}'
                 out.append(dict(prop='C18', family='c18.expect', id='c18/' + sid, cfg=cfg, x=dict(stream=list(stream), calls=list(calls), start=list(start), cancel=cancel)))
-                if len(stream) <= 2 and cancel in (None, 1) and (deep or (len(calls) == 1 and calls[0] in (0, 1, 4, 5) and start[0] == 0)):
+                if len(stream) <= 2 and cancel in (None, 1) and (deep or (len(calls) == 1 and calls[0] in (0, 1, 4) and start[0] == 0 and cancel is None and stream[0][0] == 'T1')):
                     for k in ((0, 1, 2) if deep else (1,)):
                         out.append(dict(prop='C18', family='c18.expect_bus_stopped_and_cleared', id=f'c18/stopclear{k}-' + sid, cfg=cfg,
                                         x=dict(stream=list(stream), calls=list(calls), start=list(start), cancel=cancel, stop_clear=k)))
